@@ -10,6 +10,7 @@ import json
 import logging
 import os
 import random
+import re
 import shutil
 import sys
 import tempfile
@@ -62,7 +63,7 @@ class Case:
 
 def make_reference(case: Case, seed: int, n_genes: int, sec_near_start: float = 0.0,
                    context: float = 0.0, sec_lys: float = 0.7, start_context: float = 0.5,
-                   widen_genes: float = 0.0):
+                   widen_genes: float = 0.0, trp: float = 0.0):
     """fake genome + annotation (+ proteome by translation), written with the
     repository's writers as util/fuzz_test.py does."""
     _imports()
@@ -101,6 +102,16 @@ def make_reference(case: Case, seed: int, n_genes: int, sec_near_start: float = 
                             case.meta.setdefault('planted_start_context', []).append(tx_id)
                 except Exception:   # noqa
                     pass
+    if trp > 0:
+        prng3 = random.Random(seed ^ 0x7121)
+        for tx_id in list(anno.transcripts.keys()):
+            if prng3.random() < trp:
+                try:
+                    at = plant_trp(anno, genome, prng3, tx_id)
+                except Exception:   # noqa
+                    at = None
+                if at is not None:
+                    case.meta.setdefault('planted_trp', {})[tx_id] = at
     if context > 0:
         prng2 = random.Random(seed ^ 0xC0DE)
         for tx_id in list(anno.transcripts.keys()):
@@ -924,7 +935,7 @@ def nested_variants(anno, genome, tx_id: str, rec, rng: random.Random, n: int,
 
 def dense_variants(anno, genome, tx_id: str, rng: random.Random, n: int, max_size: int = 4,
                    snv_frac: float = 0.55, window: int = 40, edge_frac: float = 0.25,
-                   special: Optional[str] = None):
+                   special: Optional[str] = None, focus_at: Optional[int] = None):
     """n small variants of one transcript, clustered: a focus (start codon, stop codon,
     a Sec codon, an exon junction, or a random point) is drawn and the variants fall in a
     window around it, so adjacent / overlapping / frame-restoring combinations and variants
@@ -961,6 +972,8 @@ def dense_variants(anno, genome, tx_id: str, rng: random.Random, n: int, max_siz
     if special and len(foci) == 2:
         chosen = [foci[1]]
         edge_frac = max(edge_frac, 0.5)
+    if focus_at is not None:
+        chosen = [focus_at]
     # positions whose records END or START exactly on the edge of a special codon / junction
     # (last base before a Sec or stop codon, first base behind it, …): conditions of the form
     # `end <= start_of_codon` vs `<` only show on these
@@ -1069,6 +1082,67 @@ def plant_context(anno, genome, rng: random.Random, tx_id: str):
 
 NEUTRAL_CODONS = ['GCT', 'GGT', 'TCT', 'CCT', 'CTG', 'ACT', 'GTT', 'GAT', 'GAA', 'AAC', 'CAG', 'TTC',
                   'TAC', 'ATC']
+
+
+def silent_pair(anno, genome, tx_id: str, rng: random.Random):
+    """for a transcript WITHOUT a known ORF: two SNVs on the 1st and 3rd base of one CTA / CTG / CGA /
+    CGG codon inside an open reading frame — each synonymous alone (Leu / Arg), non-synonymous
+    together (Phe / Ser) — plus a third SNV a few bases further on.  [] if no such codon."""
+    tx_model = anno.transcripts[tx_id]
+    if tx_model.is_protein_coding:
+        return []
+    seq = str(tx_model.get_transcript_sequence(genome[tx_model.transcript.chrom]).seq)
+    cands = []
+    for m in re.finditer('ATG', seq):
+        a = m.start()
+        for p in range(a + 6, len(seq) - 18, 3):
+            cod = seq[p:p + 3]
+            if cod in ('TAA', 'TAG', 'TGA'):
+                break
+            if cod in ('CTA', 'CTG', 'CGA', 'CGG') and p - a <= 90:
+                cands.append(p)
+    if not cands:
+        return []
+    p = rng.choice(cands)
+    first = 'T' if seq[p + 1] == 'T' else 'A'
+    out = []
+    for q, alt in ((p, first), (p + 2, 'C'), (p + rng.randint(4, 12), None)):
+        if alt is None:
+            alt = rng.choice([c for c in 'ACGT' if c != seq[q]])
+        try:
+            rec = make_snv(anno, genome, tx_id, q, alt)
+        except Exception:   # noqa
+            return []
+        if rec is None:
+            return []
+        out.append(rec)
+    return out
+
+
+def plant_trp(anno, genome, rng: random.Random, tx_id: str) -> Optional[int]:
+    """two or three tryptophan codons within a few codons of each other inside the CDS (W>F
+    reassignment then has several sites in one cleavage product); returns the transcript position
+    of the first one"""
+    tx_model = anno.transcripts[tx_id]
+    if not tx_model.is_protein_coding:
+        return None
+    tx_seq = tx_model.get_transcript_sequence(genome[tx_model.transcript.chrom])
+    if not tx_seq.orf:
+        return None
+    o0, o1 = int(tx_seq.orf.start), int(tx_seq.orf.end)
+    ncod = (o1 - o0) // 3
+    if ncod < 14:
+        return None
+    secs = {int(x.start) for x in tx_seq.selenocysteine}
+    for _ in range(20):
+        k = rng.randint(2, ncod - 10)
+        offs = sorted(rng.sample(range(1, 8), rng.choice([1, 2])))
+        pos = [o0 + 3 * k] + [o0 + 3 * (k + d) for d in offs]
+        if any(p in secs for p in pos):
+            continue
+        if all(set_tx_bases(anno, genome, tx_id, p, 'TGG') for p in pos):
+            return pos[0]
+    return None
 
 
 def plant_start_context(anno, genome, rng: random.Random, tx_id: str) -> bool:
